@@ -33,12 +33,15 @@ func runC12(c *Ctx) {
 	c.Rule("C12.C", "channel typestate: no send on / re-close of a closed channel", 3)
 	c.Rule("C12.B", "no endpoint blocks on a peer that may be gone", 4)
 	ruleRecordingDoesNotWait(c, p, "C12.B")
-	c.Rule("C12.N", "possibly-nil messages are nil-checked by the receiving goroutine (= C07.N); a response returned with a dial error is not dereferenced (= C07.I)", 3)
+	c.Rule("C12.N", "possibly-nil messages are nil-checked by the receiving goroutine (= C07.N); a response returned with a dial error is not dereferenced; indices are in range (= C07.I)", 4)
 	ruleShimNilMessages(c, p, "C12.N")
 	ruleResponseDerefOnErrorPath(c, p, "C12.N", "agent/websockets")
+	// an open request also runs through the session wrapper: an index that can be out of range
+	// there (or in the shim) panics in the request goroutine before the session is set up
+	ruleExternalIndexInBounds(c, p, "C12.N", "agent/websockets", "agent/sessions")
 	c.Rule("C12.A", "every endpoint path answers once, with an allowed status", 15)
 	c.Rule("C12.U", "unknown or closed sessions are rejected with 400 and forgotten; received messages are delivered first", 16)
-	c.Rule("C12.L", "connection lifecycle pairing", 9)
+	c.Rule("C12.L", "connection lifecycle pairing; the handshake with the backend is bounded in time", 10)
 
 	ruleShimChannels(c, p, "C12.C", "C12.B")
 	c.Rule("C12.S", "concurrent opens get distinct session IDs (a shared ID orphans a connection that close can never reach)", 2)
@@ -496,6 +499,7 @@ func runC12(c *Ctx) {
 			}
 		}
 		c.Check("C12.L", "Connection.done:is-the-cancelled-context", p, nc.Pos(), okDone, "Connection.done is Done of the context that reader and writer cancel on exit: once the backend closed (or a write failed) data/close calls see the session as ended", whyDone+": after the backend closes first the endpoints never learn that the connection ended — data calls are answered 200 while their messages pile up behind a writer that has exited, and once the queue is full they (and close) block for ever")
+		ruleDialHandshakeBounded(c, p, "C12.L", "agent/websockets")
 		// dial error path cancels
 		if d := c.UniqueCall("C12.L", p, nc, false, "(*github.com/gorilla/websocket.Dialer).Dial", "(*github.com/gorilla/websocket.Dialer).DialContext"); d != nil {
 			var ifi *ssa.If
